@@ -229,8 +229,9 @@ class Query:
 
     def __init__(self, name, harness, units, defs=None, unwind=8, variant="exact", timeout=300,
                  funcs=None, domain="D-FULL", shape=None, stubs=None, extra_cbmc=None, unwindset=None,
-                 unit_defs=None, objbits=None, no_unwind_assert=None, known_key=None, mem_gb=None):
+                 unit_defs=None, objbits=None, no_unwind_assert=None, known_key=None, mem_gb=None, hunwind=None):
         self.mem_gb = mem_gb
+        self.hunwind = hunwind      # separate (larger) bound for loops of the harness/oracle files; real-code loops keep `unwind`
         self.name, self.harness, self.units = name, harness, list(units)
         self.defs = dict(defs or {})
         self.unwind, self.variant, self.timeout = unwind, variant, timeout
@@ -342,8 +343,26 @@ class Runner:
             raise Infra("goto link failed (%s):\n%s" % (q.name, se[-3000:]))
         return binp
 
+    def harness_loops(self, q, binp):
+        """loop ids located in /verif/harness files (oracle/harness code), via cbmc --show-loops"""
+        rc, so, se = sh(["cbmc", binp, "--show-loops", "--json-ui"], timeout=120)
+        ids = []
+        try:
+            for item in json.loads(so):
+                for lp in item.get("loops", []) if isinstance(item, dict) else []:
+                    f = lp.get("sourceLocation", {}).get("file", "")
+                    if os.path.join(VERIF, "harness") in os.path.abspath(f) or f.startswith("harness/"):
+                        ids.append(lp["name"])
+        except Exception as e:
+            raise Infra("show-loops failed: %r %s" % (e, se[-300:]))
+        return ids
+
     def cbmc_cmd(self, q, binp, trace=False, prop=None):
         cmd = ["cbmc", binp, "--json-ui", "--unwind", str(q.unwind)] + CBMC_FLAGS + q.extra_cbmc
+        if q.hunwind and not getattr(q, "_hloops", None):
+            q._hloops = ["%s:%d" % (i, q.hunwind) for i in self.harness_loops(q, binp)]
+        for u in getattr(q, "_hloops", None) or []:
+            cmd += ["--unwindset", u]
         for u in q.unwindset:
             cmd += ["--unwindset", u]
         if q.objbits:
